@@ -97,6 +97,11 @@ def gen_cases(ctx, rng):
         sizes = [0 if rng.chance(1, 12) else rng.range(1, 40) for _ in range(nw)]
         c = {"writes": make_writes(sizes), "ops": [], "conc": True, "cap": rng.choice([0, 0, 1, 2, 5, 64]),
              "reads": [rng.range(1, 50) for _ in range(rng.range(1, 4))]}
+        if rng.chance(1, 10):
+            # a write far above the 32 KiB that socket reads produce (a custom toxic flushing a buffered payload)
+            c["writes"] = make_writes([rng.choice([32769, 65536, 100000])] + sizes[:2])
+            c["reads"] = [rng.choice([4096, 40000])]
+            stats["big_write"] = stats.get("big_write", 0) + 1
         if rng.chance(1, 3):
             # an interrupt made pending before every k-th read, so that data and interrupt are ready for the same Read: an interrupted
             # read is repeated, and nothing may be lost whichever arm the select takes
@@ -115,6 +120,8 @@ def oracle(case, res):
     if res.get("panic"):
         return "panic or goroutine blocked for ever: " + res["panic"][:120]
     if case.get("conc"):
+        if res.get("bad_write"):
+            return "concurrent run: " + res["bad_write"] + " although every byte was taken (a caller honouring the count re-sends or gives up)"
         if res.get("all", []) != flat:
             return "concurrent run: bytes read differ from bytes written"
         if not res.get("eof"):
